@@ -168,6 +168,18 @@ class CharacterClass(MutableSet[int]):
         obj = self.__copy__()
         return obj.__isub__(other)
 
+    def _add_complement(self, subset: UnicodeSubset) -> None:
+        # The class is the union of the positive part and of the complement of the
+        # negative part: the union of two complements is the complement of the
+        # intersection (e.g. [\D\S] matches all the characters).
+        if self.negative:
+            subset = self.negative - (self.negative - subset)  # intersection
+        if subset:
+            self.negative = subset.copy()
+        else:
+            self.negative.clear()
+            self.positive = UnicodeSubset([(0, maxunicode + 1)])
+
     def add(self, charset: Union[int, str]) -> None:
         if isinstance(charset, int):
             charset = chr(charset)
@@ -180,7 +192,7 @@ class CharacterClass(MutableSet[int]):
                 elif part[-1].islower():
                     self.positive |= value()
                 else:
-                    self.negative |= value()
+                    self._add_complement(value())
             elif part.startswith('\\p') or part.startswith('\\P'):
                 if self._re_unicode_ref.search(part) is None:
                     raise RegexError("wrong Unicode block specification %r" % part)
@@ -196,7 +208,7 @@ class CharacterClass(MutableSet[int]):
                     if part.startswith('\\p'):
                         self.positive |= subset
                     else:
-                        self.negative |= subset
+                        self._add_complement(subset)
             else:
                 self.positive.update(part)
 
